@@ -1,15 +1,14 @@
 SPECIFICATION Spec
 CONSTANTS
-  MaxOverloads = 3
+  MaxOverloads = 2
   MaxParams = 1
   ParamCats <- Cats1
   IntVals <- EdgeIntVals
-  IntVals2 <- FewIntVals
+  IntVals2 <- TinyIntVals
   ArgKinds <- AllArgKinds
   Kinds = {"method"}
   ConstMethods = TRUE
   Fixed <- NoFix
-INVARIANT Refines
-INVARIANT TiesHarmless
+INVARIANT RefinesAndTies
 CONSTRAINT DumpConstraint
 CHECK_DEADLOCK FALSE
